@@ -997,7 +997,24 @@ func callBuiltin(caller *frame, fn *ssa.Builtin, args []value) value {
 		case string, symstr:
 			src = strBytes(s)
 		}
-		return copy(args[0].([]value), src.([]value))
+		dst := args[0].([]value)
+		srcv := src.([]value)
+		n := len(srcv)
+		if len(dst) < n {
+			n = len(dst)
+		}
+		if n > 0 {
+			switch srcv[0].(type) {
+			case structure, array:
+				// overlapping copies of aggregates: go through a temporary
+				tmp := copyElems(srcv[:n])
+				for i := 0; i < n; i++ {
+					assignInPlace(&dst[i], tmp[i])
+				}
+				return n
+			}
+		}
+		return copy(dst, srcv)
 
 	case "close": // close(chan T)
 		caller.i.m.chanClose(args[0].(*vchan))
